@@ -86,7 +86,7 @@ impl T {
     pub fn to_json(&self) -> J {
         match self {
             T::Lit(v) => json!({"k":"lit","v":v.to_json()}),
-            T::Id(n) => json!({"k":"id","n":n}),
+            T::Id(n) => json!({"k":"id","n":n,"nc":cps(n)}),
             T::Un { op, n, e } => json!({"k":"un","op":op.to_string(),"n":n,"e":e.to_json()}),
             T::Bin { op, l, r } => json!({"k":"bin","op":op,"l":l.to_json(),"r":r.to_json()}),
             T::Tern { c, a, b } => json!({"k":"tern","c":c.to_json(),"a":a.to_json(),"b":b.to_json()}),
@@ -97,7 +97,7 @@ impl T {
             T::Sel { e, f } => json!({"k":"sel","e":e.to_json(),"f":f,"fc":cps(f)}),
             T::Idx { e, i } => json!({"k":"idx","e":e.to_json(),"i":i.to_json()}),
             T::Call { f, args } => {
-                json!({"k":"call","f":f,"args":args.iter().map(|e| e.to_json()).collect::<Vec<_>>()})
+                json!({"k":"call","f":f,"fc":cps(f),"args":args.iter().map(|e| e.to_json()).collect::<Vec<_>>()})
             }
             T::MCall { r, f, args } => {
                 json!({"k":"mcall","r":r.to_json(),"f":f,"fc":cps(f),"args":args.iter().map(|e| e.to_json()).collect::<Vec<_>>()})
